@@ -692,3 +692,30 @@ func init() {
 			Old: "return d.buf[pos-n : pos : pos], nil", New: "return d.buf[pos-n : pos], nil", Rule: "CAP-1"},
 	)
 }
+
+func init() {
+	addMutants(
+		Mutant{ID: "niliface1-typed-nil-marshalers-stored", Props: []string{"C20", "C17"}, File: "options.go", Func: "",
+			Old: "\t\t\tdst.Marshalers = nil // a nil *Marshalers is equivalent to an empty list\n\t\t\tif src != nil {\n\t\t\t\tdst.Marshalers = (*Marshalers)(src)\n\t\t\t}", New: "\t\t\tdst.Marshalers = (*Marshalers)(src)", Rule: "NILIFACE-1"},
+	)
+}
+
+func init() {
+	addMutants(
+		// ---- round-k strengthening
+		Mutant{ID: "peek2-readtoken-keeps-cached-position", Props: []string{"C05"}, File: "jsontext/decode.go", Func: "decoderState.ReadToken",
+			Old: "\t\tnext = Kind(d.buf[pos]).normalize()\n\t\td.peekPos = 0 // reset cache\n", New: "\t\tnext = Kind(d.buf[pos]).normalize()\n", Rule: "PEEK-2"},
+		Mutant{ID: "bbuf1-flush-aliases-whole-buffer", Props: []string{"C07", "C18"}, File: "jsontext/encode.go", Func: "encoderState.Flush",
+			Old: "e.Buf = bb.AvailableBuffer()", New: "e.Buf = bb.Bytes()[:0]", Rule: "BBUF-1"},
+		Mutant{ID: "pool5-names-put-twice", Props: []string{"C18"}, File: "arshal_any.go", Func: "marshalObjectAny",
+			Old: "names := getStrings(len(obj))", New: "names := getStrings(len(obj))\n\t\tdefer putStrings(names)", Rule: "POOL-5"},
+	)
+}
+
+func init() {
+	addMutants(
+		Mutant{ID: "null1-string-quoted-null-after-second-unquote", Props: []string{"C09"}, File: "arshal_default.go", Func: "makeStringArshaler",
+			Old: "\t\t\t\tif uo.Flags.Get(jsonflags.StringifyWithLegacySemantics) && string(val) == \"null\" {\n\t\t\t\t\tif !uo.Flags.Get(jsonflags.MergeWithLegacySemantics) {\n\t\t\t\t\t\tva.SetString(\"\")\n\t\t\t\t\t}\n\t\t\t\t\treturn nil\n\t\t\t\t}\n\t\t\t\tval, err = jsontext.AppendUnquote(nil, val)\n\t\t\t\tif err != nil {\n\t\t\t\t\treturn newUnmarshalErrorAfter(dec, t, err)\n\t\t\t\t}\n",
+			New: "\t\t\t\tval, err = jsontext.AppendUnquote(nil, val)\n\t\t\t\tif err != nil {\n\t\t\t\t\treturn newUnmarshalErrorAfter(dec, t, err)\n\t\t\t\t}\n\t\t\t\tif uo.Flags.Get(jsonflags.StringifyWithLegacySemantics) && string(val) == \"null\" {\n\t\t\t\t\tif !uo.Flags.Get(jsonflags.MergeWithLegacySemantics) {\n\t\t\t\t\t\tva.SetString(\"\")\n\t\t\t\t\t}\n\t\t\t\t\treturn nil\n\t\t\t\t}\n", Rule: "NULL-1"},
+	)
+}
